@@ -512,7 +512,10 @@ def generate(src):
 
 def write(src, tla_dir, cpp_root):
     """writes <tla_dir>/Gl64_gen.tla and <cpp_root>/gen_<hash>/{ptx_exec_gen.hpp,ptx_prims.hpp}; -> (include dir, info)."""
-    tla, cpp, info = generate(src)
+    try:
+        tla, cpp, info = generate(src)
+    except (IndexError, KeyError, ValueError, AttributeError, TypeError) as e:     # text in a shape nobody anticipated
+        raise ParseError('front end could not follow the source (%s: %s)' % (type(e).__name__, e))
     open(os.path.join(tla_dir, 'Gl64_gen.tla'), 'w').write(tla)
     prims = open(os.path.join(HERE, 'ptx_prims.hpp')).read()
     d = os.path.join(cpp_root, 'gen_' + hashlib.sha256((cpp + prims).encode()).hexdigest()[:16])
